@@ -29,7 +29,11 @@ class H0Connection:
                         )
                     )
                 elif data.endswith(b"\r\n") or event.end_stream:
-                    method, path = data.rstrip().split(b" ", 1)
+                    try:
+                        method, path = data.rstrip().split(b" ", 1)
+                    except ValueError:
+                        # malformed request line, ignore it
+                        return http_events
                     http_events.append(
                         HeadersReceived(
                             headers=[(b":method", method), (b":path", path)],
